@@ -59,7 +59,20 @@ def run(ctx, rep):
     scope = c13.generic_scope(F, PC + "recreated_zlib_chunks")
     rep.floor("F8", "destination-holding-functions", len(scope), 5)
     c13.r5(F, rep, "F8", scope)
-    rep.add("F8", "no-unflushed-buffering", not any(o.rule == "F8" and not o.ok for o in rep.obs), "",
+    # ... and every write to it must be a write_all: a count-returning write (write, write_vectored) on a Cursor over a
+    # too-small slice reports the shortfall only in the count, so ignoring it turns "buffer too small" into status 0
+    nw = 0
+    for name in scope:
+        b = F.bodies[name]
+        for bb, t in b.calls():
+            tr = t["callee"].get("trait")
+            if tr not in ("std::io::Write", "byteorder::WriteBytesExt"):
+                continue
+            m = t["callee"]["def"].split("::")[-1]
+            nw += 1
+            rep.add("F8", "destination-write:%s:%s@%s" % (name.split("::")[-1], m, c13._nth(b, bb, m)), bool(c13.WRITE_OK.match(m)), b.where(bb), "%s::%s" % (tr, m))
+    rep.floor("F8", "destination-writes", nw, 4)
+    rep.add("F8", "no-unflushed-buffering", not any(o.rule == "F8" and not o.ok and "buffered-destination" in str(o.instance) for o in rep.obs), "",
             "functions that hold the destination: %s" % [s.split("::")[-1] for s in scope])
 
 
